@@ -88,7 +88,8 @@ def r06_1_plain_tags(ctx):
                 r.fail('%s:bang-literal:%s' % (mod, n.value[:20]), '%s:%d' % (P.module(mod).path, n.lineno),
                        'a "!" tag literal %r appears in the dump path' % n.value)
     d = P.func('yatiml.dumper:Dumper.represent_ordereddict')
-    body = [st for st in d.node.body if not (isinstance(st, ast.Expr) and isinstance(st.value, ast.Constant))]
+    body = [st for st in d.node.body if not (isinstance(st, ast.Expr) and (isinstance(st.value, ast.Constant) or (
+        isinstance(st.value, ast.Call) and norm(st.value.func).startswith(('logger.', 'logging.')))))]
     ok = len(body) == 1 and isinstance(body[0], ast.Return) and norm(body[0].value) in (
         'self.represent_dict(%s)' % d.params[1], 'yaml.SafeDumper.represent_dict(self, %s)' % d.params[1])
     r.check(ok, 'represent_ordereddict delegates to represent_dict', d.key + ':delegation', d.loc(),
@@ -281,9 +282,11 @@ EXEMPT_CALLTIME_WRITES = {
 }
 
 
-def r11_1_calltime_writes(ctx):
+def r11_1_calltime_writes(ctx, rid='R11.1', modules=None):
+    """modules: restrict the report to constructs of these yatiml modules (C07 only speaks about the dump side)"""
     P = ctx.P
-    r = ctx.rule('R11.1', 'no call-time write to state that outlives the call (module globals, class attributes, fields of '
+    keep = (lambda modname: True) if modules is None else (lambda modname: modname in modules)
+    r = ctx.rule(rid, 'no call-time write to state that outlives the call (module globals, class attributes, fields of '
                           'objects created at factory time, class-level mutable defaults)', floor=5)
     W = world(P)
     fis = call_time_functions(P)
@@ -292,6 +295,8 @@ def r11_1_calltime_writes(ctx):
         cls = ev.fi.cls.name if ev.fi.cls is not None else None
         k = _ev_key(ev)
         bad = None
+        if not keep(ev.fi.module.name):
+            continue
         for root in ev.roots:
             if root.startswith(('global:', 'class:')):
                 bad = 'module/class level state %s' % root
@@ -308,6 +313,8 @@ def r11_1_calltime_writes(ctx):
     r.ok('%d call-time functions, %d direct writes to per-call objects' % (len(fis), n_ok))
     # class-level mutable defaults that are mutated in place through self
     for m in P.yatiml_modules():
+        if not keep(m.name):
+            continue
         for c in m.classes.values():
             for name, v in c.class_attrs.items():
                 mutable = isinstance(v, (ast.List, ast.Dict, ast.Set, ast.ListComp, ast.DictComp, ast.SetComp)) or (
@@ -337,6 +344,8 @@ def r11_1_calltime_writes(ctx):
     # fields mutated in place must be initialised per instance
     for ckey in ('yatiml.dumper:Dumper', 'yatiml.loader:Loader'):
         c = P.cls(ckey)
+        if not keep(c.module.name):
+            continue
         init = c.methods.get('__init__')
         inst = set()
         if init is not None:
@@ -413,9 +422,9 @@ PYYAML_TABLES = {'yaml_constructors', 'yaml_multi_constructors', 'yaml_represent
                  'yaml_implicit_resolvers', 'yaml_path_resolvers'}
 
 
-def r11_3_pyyaml_tables(ctx):
+def r11_3_pyyaml_tables(ctx, rid='R11.3'):
     P = ctx.P
-    r = ctx.rule('R11.3', 'PyYAML\'s class-level tables are never mutated in place; registrations go through '
+    r = ctx.rule(rid, 'PyYAML\'s class-level tables are never mutated in place; registrations go through '
                           'add_constructor/add_representer on yatiml-defined classes (copy-on-first-write, checked in PyYAML\'s '
                           'source); the resolver patch builds a fresh table with fresh lists', floor=6)
     for fi in P.yatiml_functions():
@@ -543,4 +552,76 @@ def r11_6_user_classes(ctx):
                     break
     r.ok('%d write events in the package examined; none is rooted at a user class' % n)
     r.ok('control: roots considered user classes: parameters named %s and self.class_' % sorted(names))
+    r.done()
+
+
+PYYAML_ALIAS_STATE = {'represented_objects', 'alias_key', 'object_keeper', 'anchors', 'serialized_nodes', 'last_anchor_id'}
+
+
+def r06_7_alias_bookkeeping(ctx, rid='R06.7'):
+    """yatiml leaves PyYAML's alias bookkeeping alone"""
+    P = ctx.P
+    r = ctx.rule(rid, 'yatiml never writes PyYAML\'s alias bookkeeping (represented_objects, alias_key, object_keeper, anchors, '
+                      'serialized_nodes): which node an object is an alias of is decided by PyYAML\'s own represent_data', floor=1)
+    n = 0
+    for m in P.yatiml_modules():
+        for x in ast.walk(m.tree):
+            tgt = None
+            if isinstance(x, (ast.Attribute,)) and isinstance(x.ctx, (ast.Store, ast.Del)) and x.attr in PYYAML_ALIAS_STATE:
+                tgt = x
+            elif isinstance(x, ast.Subscript) and isinstance(x.ctx, (ast.Store, ast.Del)) and isinstance(x.value, ast.Attribute) \
+                    and x.value.attr in PYYAML_ALIAS_STATE:
+                tgt = x
+            elif isinstance(x, ast.Call) and isinstance(x.func, ast.Attribute) and x.func.attr in MUTATORS \
+                    and isinstance(x.func.value, ast.Attribute) and x.func.value.attr in PYYAML_ALIAS_STATE:
+                tgt = x
+            if tgt is not None:
+                r.fail('%s:alias-bookkeeping:%s' % (m.name, norm(tgt)[:60]), '%s:%d' % (m.path, tgt.lineno),
+                       '%s writes PyYAML\'s alias bookkeeping: alias_key is overwritten by every nested represent_data call, so a node '
+                       'registered after the children were represented is filed under the id of the last child - a later reference to '
+                       'that child is emitted as an alias of the whole parent' % norm(tgt)[:60])
+            n += 1
+    # positive control: the matcher recognises the idiom in PyYAML's own source
+    ctrl = 0
+    for x in ast.walk(P.module('yaml.representer').tree):
+        if isinstance(x, ast.Subscript) and isinstance(x.ctx, ast.Store) and isinstance(x.value, ast.Attribute) \
+                and x.value.attr in PYYAML_ALIAS_STATE:
+            ctrl += 1
+    if ctrl == 0:
+        raise AnalysisError('positive control failed: no write to represented_objects found in yaml/representer.py')
+    r.ok('no write to %s in yatiml (%d nodes scanned; control: %d such writes in yaml/representer.py)' % (sorted(PYYAML_ALIAS_STATE), n, ctrl))
+    r.done()
+
+
+def r12_6_options_forwarded(ctx, rid='R12.6'):
+    """the Dumper does not look at the sink and hands PyYAML's emitter options on unchanged"""
+    P = ctx.P
+    r = ctx.rule(rid, 'Dumper.__init__ forwards the stream and every emitter option it is given to SafeDumper.__init__ unchanged '
+                      '(only sort_keys is replaced, by False) and does not inspect the stream', floor=10)
+    f = fn(P, 'yatiml.dumper:Dumper.__init__')
+    base = P.func('yaml.dumper:SafeDumper.__init__')
+    bparams = base.params
+    calls = [c for c in f.walk() if isinstance(c, ast.Call) and norm(c.func).endswith('__init__')
+             and ('SafeDumper' in norm(c.func) or 'super()' in norm(c.func))]
+    if len(calls) != 1:
+        raise AnalysisError('anchor missing: the SafeDumper.__init__ call in Dumper.__init__')
+    c = calls[0]
+    args = list(c.args)
+    off = 1 if args and norm(args[0]) == f.fi.params[0] and 'SafeDumper' in norm(c.func) else 0
+    own = f.fi.params
+    stores = {x.id for x in f.walk() if isinstance(x, ast.Name) and isinstance(x.ctx, (ast.Store, ast.Del))}
+    for i, bp in enumerate(bparams[1:]):
+        a = args[i + off] if i + off < len(args) else G.kwarg(c, bp)
+        if bp == 'sort_keys':
+            continue
+        ok = isinstance(a, ast.Name) and a.id == bp and bp in own and bp not in stores
+        r.check(ok, 'option %s is forwarded unchanged' % bp, f.key('forwarded:%s' % bp), f.loc(c),
+                'Dumper.__init__ passes %s for PyYAML\'s %s (or re-binds it first): the same dump comes out differently depending on '
+                'something other than the options given, e.g. on the kind of sink' % (norm(a) if a is not None else 'nothing', bp))
+    stream = own[1] if len(own) > 1 else 'stream'
+    reads = [x for x in f.walk() if isinstance(x, ast.Attribute) and isinstance(x.value, ast.Name) and x.value.id == stream] + \
+            [x for x in f.walk() if isinstance(x, ast.Call) and call_name(x) in ('getattr', 'hasattr', 'isinstance', 'type') and x.args
+             and norm(x.args[0]) == stream]
+    r.check(not reads, 'the stream is handed on without being inspected', f.key('stream-inspected'), f.loc(reads[0]) if reads else f.loc(),
+            'Dumper.__init__ inspects the sink (%s): the text written depends on the kind of sink' % (norm(reads[0])[:50] if reads else ''))
     r.done()
